@@ -196,6 +196,17 @@ fn cases_padding(_rng: &mut Rng, sink: &mut dyn FnMut(J) -> bool) {
                         return;
                     }
                 }
+                // characters of the base64url alphabet swapped for their standard-base64 counterparts
+                for nth in 0..10 {
+                    if !sink(case_of(&cfg, json!({"kind": "alphabet", "part": part, "nth": nth}))) {
+                        return;
+                    }
+                }
+                for extra in ["", "=", "=="] {
+                    if !sink(case_of(&cfg, json!({"kind": "alphabet", "part": part, "nth": "all", "append": extra}))) {
+                        return;
+                    }
+                }
                 // single characters (whitespace class incl. Unicode whitespace, padding, separators) put
                 // in front of / behind each part; header + front = position 0 of the whole compact text
                 for text in [" ", "\n", "\t", "\r", "\r\n", "\u{b}", "\u{c}", "\u{85}", "\u{a0}", "\u{1680}", "\u{2003}", "\u{2028}", "\u{2029}", "\u{202f}", "\u{3000}", "\u{feff}", "\u{200b}", "=", "  "] {
@@ -317,6 +328,33 @@ pub fn mutate(cfg: &Cfg, p: &Parts, m: &J) -> Option<(Parts, J)> {
         }
         "append" => {
             let s: String = cur.iter().collect::<String>() + m["text"].as_str()?;
+            Some((set_part(p, part, &s), own_key))
+        }
+        "alphabet" => {
+            // `-` -> `+`, `_` -> `/` : the n-th such character of the part, or all of them
+            let swap = |c: char| match c {
+                '-' => Some('+'),
+                '_' => Some('/'),
+                _ => None,
+            };
+            let mut v = cur.clone();
+            match m["nth"].as_u64() {
+                Some(nth) => {
+                    let idx = v.iter().enumerate().filter(|(_, c)| swap(**c).is_some()).map(|(i, _)| i).nth(nth as usize)?;
+                    v[idx] = swap(v[idx])?;
+                }
+                None => {
+                    if !v.iter().any(|c| swap(*c).is_some()) {
+                        return None;
+                    }
+                    for c in v.iter_mut() {
+                        if let Some(s) = swap(*c) {
+                            *c = s;
+                        }
+                    }
+                }
+            }
+            let s: String = v.iter().collect::<String>() + m["append"].as_str().unwrap_or("");
             Some((set_part(p, part, &s), own_key))
         }
         "prepend" => {
